@@ -51,6 +51,13 @@ def run(an: Analysis, rep):
     rep.run(json_fold.encode_fold_rule, an, rep)
     rep.run(json_fold.constants_fold_rule, an, rep)
     rep.run(r07l, an, rep)
+    from .common import SharedRules as _SRE
+    from . import c08 as _c08e
+    she = _SRE(rep, "R07.E", "fields equal to their default are left out of the document, and 'equal' is the data classes' own ==: every field takes part in equality, hand-written __eq__ covers every "
+                               "field, and the constant key identifies all NaNs and nothing else (shared with C08's R08.1 / R08.2 / R08.4) - a field left out of == makes a non-default value vanish from the document")
+    rep.run(_c08e.r081, an, she)
+    rep.run(_c08e.r082, an, she)
+    rep.run(_c08e.r084, an, she)
     from .common import old_interpreter_rule
     rep.run(old_interpreter_rule, an, rep, "R07.V", ["to_json", "from_json"])
     rep.run(r075, an, rep, enc, cdec)
